@@ -31,6 +31,7 @@ type Contract struct {
 	Results   []string
 	Requires  []Clause
 	Ensures   []Clause
+	Assumed   []Clause // clauses callers may use but the body is not checked against (listed as assumptions)
 	PanicsIff *Clause
 	PanicsIf  []Clause // one direction: condition implies panic (the function may also panic otherwise)
 	MayPanic  bool
@@ -45,6 +46,8 @@ type Contract struct {
 	Lets      []LetDef
 	// call-site assertions: "assert call <callee-substring> : expr"
 	CallAsserts []CallAssert
+	Pow10Max    int      // largest exponent for which pow10 of a symbolic argument is instantiated (default 120)
+	LemmaUses   []*CCall // lemma instances assumed at entry (the lemma is an obligation of the same property)
 }
 
 type Def struct {
@@ -95,7 +98,7 @@ func NewContractSet() *ContractSet {
 	return &ContractSet{Funcs: map[string]*Contract{}, Globals: map[string][]*GlobalSpec{}, Pure: map[string]bool{}, Defs: map[string]*Def{}}
 }
 
-var keywords = map[string]bool{"func": true, "global": true, "requires": true, "ensures": true, "panics_iff": true, "panics_if": true, "define": true,
+var keywords = map[string]bool{"func": true, "global": true, "requires": true, "ensures": true, "ensures_assumed": true, "uses": true, "pow10_max": true, "panics_iff": true, "panics_if": true, "define": true,
 	"may_panic": true, "modifies": true, "loop": true, "props": true, "trusted": true, "inline": true, "let": true,
 	"lemma": true, "pure": true, "package": true, "var": true, "hyp": true, "concl": true, "assert": true, "end": true}
 
@@ -288,6 +291,16 @@ func (cs *ContractSet) ParseContractText(file, pkg, text string, trusted bool) {
 				cur.Requires = append(cur.Requires, Clause{E: parse(rl.n, rest), Src: rest})
 			case "ensures":
 				cur.Ensures = append(cur.Ensures, Clause{E: parse(rl.n, rest), Src: rest})
+			case "pow10_max":
+				cur.Pow10Max, _ = strconv.Atoi(strings.TrimSpace(rest))
+			case "uses":
+				if cc, ok := parse(rl.n, rest).(*CCall); ok {
+					cur.LemmaUses = append(cur.LemmaUses, cc)
+				} else {
+					errf(rl.n, "uses: expected lemma_name(args)")
+				}
+			case "ensures_assumed":
+				cur.Assumed = append(cur.Assumed, Clause{E: parse(rl.n, rest), Src: rest})
 			case "panics_iff":
 				cur.PanicsIff = &Clause{E: parse(rl.n, rest), Src: rest}
 			case "panics_if":
